@@ -1,0 +1,50 @@
+/*
+nifly verification hooks. Only compiled with -DNIFLY_VERIF.
+*/
+#pragma once
+#ifdef NIFLY_VERIF
+#include <cstddef>
+#include <cstdint>
+#include <type_traits>
+
+namespace nifly {
+class NiRef;
+class NiStringRef;
+class NiIStream;
+class NiOStream;
+class NiStreamReversible;
+
+namespace verif {
+enum FieldKind : uint8_t { FK_RAW, FK_BOOL, FK_INT, FK_ENUM, FK_FLOAT, FK_STRUCT, FK_COUNT, FK_HALF, FK_STRLEN };
+
+struct Observer {
+	virtual ~Observer() = default;
+	// A NiRef object came to life / died (only tracked while an observer is installed)
+	virtual void RefBorn(const NiRef*) {}
+	virtual void RefDied(const NiRef*) {}
+	// About to sync a field of the given kind and size at ptr. Return true if the observer handled the read itself.
+	virtual bool Field(NiStreamReversible&, FieldKind, void*, size_t) { return false; }
+	virtual void StringRef(NiIStream*, NiOStream*, NiStringRef*) {}
+};
+
+inline Observer* observer = nullptr;
+inline uint64_t nextUid = 1;
+
+struct Uid {
+	uint64_t v;
+	Uid() : v(nextUid++) {}
+	Uid(const Uid&) : v(nextUid++) {}
+	Uid& operator=(const Uid&) { return *this; }
+};
+
+template<typename T>
+constexpr FieldKind KindOf() {
+	if constexpr (std::is_same_v<T, bool>) return FK_BOOL;
+	else if constexpr (std::is_enum_v<T>) return FK_ENUM;
+	else if constexpr (std::is_floating_point_v<T>) return FK_FLOAT;
+	else if constexpr (std::is_integral_v<T>) return FK_INT;
+	else return FK_STRUCT;
+}
+} // namespace verif
+} // namespace nifly
+#endif
